@@ -157,7 +157,7 @@ func bodyCluster(c *sim.Ctx) {
 	ksuid.SetRand(detRand{mrand.NewChaCha8(sd)})
 	disk := sim.NewDisk(c)
 	installOpHooks(c, disk)
-	w := &cluWorld{c: c, prop: prop, disk: disk, net: newSimNet(c), workers: map[string]*simWorker{}, published: map[uint64]*snapshotpb.JobCheckpoint{},
+	w := &cluWorld{c: c, prop: prop, disk: disk, net: newSimNet(c), workers: map[string]*simWorker{}, published: map[uint64]*snapshotpb.JobCheckpoint{}, allPublished: map[uint64]*snapshotpb.JobCheckpoint{},
 		streams: map[string][]streamItem{}, regs: map[string]map[string]bool{}, startCkpt: map[uint64]int{},
 		kgs: int(c.Cfg("kgs", 8)), workerCount: int(c.Cfg("workers", 1))}
 	// input
@@ -194,6 +194,7 @@ func bodyCluster(c *sim.Ctx) {
 		}
 		w.mu.Lock()
 		w.published[jc.Id] = &jc
+		w.allPublished[jc.Id] = &jc
 		w.newestPub = max(w.newestPub, jc.Id)
 		w.mu.Unlock()
 		c.Probe("job-checkpoint-published")
@@ -246,6 +247,9 @@ func bodyCluster(c *sim.Ctx) {
 			if el < deadline {
 				continue
 			}
+		}
+		if prop == "C14" && !w.savepointPhase() && el < deadline {
+			continue
 		}
 		all, distinct := w.h.seenAll()
 		if all {
@@ -508,8 +512,115 @@ func (w *cluWorld) applyFault(op simcore.Op) {
 	}
 }
 
+// requestSavepoint is what `reduction savepoint` does through the job server.
 func (w *cluWorld) requestSavepoint() {
-	// filled in by the C14 part of the harness
+	c, prop := w.c, w.prop
+	var id uint64
+	var err error
+	w.mu.Lock()
+	pendingBefore := w.inFlight()
+	w.mu.Unlock()
+	rerr := w.net.rpc("cli", "job", "CreateSavepoint", func() error {
+		w.mu.Lock()
+		job := w.job
+		w.mu.Unlock()
+		if job == nil {
+			return errTransport
+		}
+		id, err = job.HandleCreateSavepoint(context.Background())
+		return nil
+	})
+	if rerr != nil || err != nil {
+		c.Probe("savepoint-refused") // e.g. job not running yet, or a savepoint already in progress
+		simrt.Logf("savepoint request: %v %v", rerr, err)
+		return
+	}
+	c.Probe("savepoint-requested")
+	if pendingBefore != 0 {
+		if id != pendingBefore {
+			c.Violate(prop+"/savepoint-second-checkpoint", "a savepoint requested while checkpoint %d was in progress got id %d instead of folding into it", pendingBefore, id)
+		}
+		c.Probe("savepoint-folded-into-pending")
+	}
+	w.mu.Lock()
+	w.savepoints = append(w.savepoints, id)
+	w.mu.Unlock()
+}
+
+// inFlight: id of a checkpoint that was started and neither published nor abandoned (0 = none). Caller holds w.mu.
+func (w *cluWorld) inFlight() uint64 {
+	var ids []uint64
+	for id := range w.startCkpt {
+		if w.published[id] == nil && id > w.abandonedUpTo {
+			ids = append(ids, id)
+		}
+	}
+	sort.Slice(ids, func(i, j int) bool { return ids[i] < ids[j] })
+	if len(ids) == 0 {
+		return 0
+	}
+	return ids[len(ids)-1]
+}
+
+// savepointPhase (C14): once the artifact of the first savepoint exists, everything is
+// killed, all working storage is deleted, and a new job is started from the savepoint URI
+// with the same or another worker count.
+func (w *cluWorld) savepointPhase() (done bool) {
+	c, prop := w.c, w.prop
+	w.mu.Lock()
+	sps := append([]uint64(nil), w.savepoints...)
+	job := w.job
+	restored := w.restoredFromSavepoint
+	w.mu.Unlock()
+	if restored || len(sps) == 0 || job == nil {
+		return restored
+	}
+	uri, err := job.HandleGetSavepointURI(context.Background(), sps[0])
+	if err != nil {
+		return false // not written yet
+	}
+	if !w.disk.Exists(uri) {
+		c.Violate(prop+"/savepoint-uri-missing", "savepoint %d URI %s does not exist", sps[0], uri)
+		return false
+	}
+	c.Probe("savepoint-artifact-written")
+	// the running job keeps going for a while (a later checkpoint / retention update may
+	// run concurrently with the artifact copy), then everything dies
+	simrt.Sleep("after-savepoint", time.Duration(c.Cfg("sp_linger_s", 5))*time.Second)
+	for _, wk := range w.workerList() {
+		if w.net.alive(wk.host) {
+			c.S.KillGroup(wk.group)
+			w.disk.Kill("op-" + wk.opID)
+			w.net.kill(wk.host)
+		}
+	}
+	w.mu.Lock()
+	group := fmt.Sprintf("job%d", w.jobInc)
+	w.abandonedUpTo = 1 << 62
+	w.mu.Unlock()
+	c.S.KillGroup(group)
+	w.disk.Kill(group)
+	w.net.kill("job")
+	c.Fault("everything-killed")
+	// all working storage is gone; only the savepoint directory survives
+	w.disk.RemoveWhere(func(p string) bool { return !strings.HasPrefix(p, "/job/savepoints/") }, "harness:wipe-working-storage")
+	w.mu.Lock()
+	w.workerCount = int(c.Cfg("workers2", int64(w.workerCount)))
+	w.restoredFromSavepoint = true
+	w.savepointID = sps[0]
+	w.published = map[uint64]*snapshotpb.JobCheckpoint{} // the final checkpoint must come from the restored job
+	w.newestPub = 0
+	w.abandonedUpTo = 0
+	for id := range w.startCkpt {
+		w.abandonedUpTo = max(w.abandonedUpTo, id)
+	}
+	w.mu.Unlock()
+	w.startJob(uri)
+	for i := 0; i < w.workerCount; i++ {
+		w.startWorker()
+	}
+	c.Probe("restored-from-savepoint")
+	return true
 }
 
 // --- final checks ---
@@ -636,9 +747,11 @@ func (w *cluWorld) checkStreams() {
 		items := w.streams[k]
 		var lastWM, maxTS time.Time
 		haveWM, haveTS := false, false
+		wmsSinceRec := 0
 		for pos, it := range items {
 			switch it.kind {
 			case "rec":
+				wmsSinceRec = 0
 				if !haveTS || it.ts.After(maxTS) {
 					maxTS, haveTS = it.ts, true
 				}
@@ -653,6 +766,16 @@ func (w *cluWorld) checkStreams() {
 					return
 				}
 				lastWM, haveWM = it.wm, true
+				// "follows closely" as bounded liveness: a watermark delivered more than 30
+				// simulated seconds after the runner's last record was delivered (on any
+				// stream) is exactly one nanosecond below the largest timestamp it keyed
+				if lt, ok := w.h.lastTS[srID]; ok && !w.h.faults && !it.wm.Equal(time.Unix(0, lt-1)) {
+					if last, all := w.lastRecordDelivery(srID); all && it.at > last+30*time.Second {
+						c.Violate(prop+"/watermark-lags", "stream %s: watermark %s delivered at %s, %s after the runner's last record; the largest timestamp it keyed is %s", k, it.wm.UTC().Format(time.RFC3339Nano), fmtDur(it.at), fmtDur(it.at-last), time.Unix(0, lt).UTC().Format(time.RFC3339Nano))
+						return
+					}
+				}
+				wmsSinceRec++
 			case "bar":
 				cur := cursors[srID][it.ckpt]
 				if cur == nil {
@@ -713,7 +836,7 @@ func (w *cluWorld) checkAssignments() {
 			}
 		}
 		if id, ok := w.src.roundCkpt[r]; ok {
-			jc := w.published[id]
+			jc := w.allPublished[id]
 			if jc == nil {
 				c.Violate(prop+"/restored-unpublished-checkpoint", "assignment round %d restored source positions of checkpoint %d which was never published", r, id)
 				return
@@ -755,12 +878,12 @@ func (w *cluWorld) checkDeploys() {
 	w.mu.Lock()
 	defer w.mu.Unlock()
 	for _, d := range w.deploys {
-		if len(d.ops) != w.workerCount {
-			c.Violate(prop+"/deploy-wrong-size", "%s %s was deployed with %d operators %v, WorkerCount is %d", d.kind, d.target, len(d.ops), d.ops, w.workerCount)
+		if len(d.ops) != d.want {
+			c.Violate(prop+"/deploy-wrong-size", "%s %s was deployed with %d operators %v, WorkerCount is %d", d.kind, d.target, len(d.ops), d.ops, d.want)
 			return
 		}
-		if d.kind == "op" && len(d.srs) != w.workerCount {
-			c.Violate(prop+"/deploy-wrong-size", "operator %s was deployed with %d source runners %v, WorkerCount is %d", d.target, len(d.srs), d.srs, w.workerCount)
+		if d.kind == "op" && len(d.srs) != d.want {
+			c.Violate(prop+"/deploy-wrong-size", "operator %s was deployed with %d source runners %v, WorkerCount is %d", d.target, len(d.srs), d.srs, d.want)
 			return
 		}
 		if d.kind == "op" && !contains(d.ops, d.target) {
@@ -780,3 +903,42 @@ func (w *cluWorld) checkDeploys() {
 func jsonUnmarshal(b []byte, v any) error { return json.Unmarshal(b, v) }
 
 var _ = storage.ErrNotFound
+
+// recsDone: no record follows position pos on the stream.
+func recsDone(items []streamItem, pos int) bool {
+	for _, it := range items[pos+1:] {
+		if it.kind == "rec" {
+			return false
+		}
+	}
+	return true
+}
+
+// lastRecordDelivery: simulated time at which the runner's last record was delivered,
+// and whether every record of the splits it was assigned has been delivered.
+func (w *cluWorld) lastRecordDelivery(srID string) (time.Duration, bool) {
+	n := 0
+	var last time.Duration
+	for k, items := range w.streams {
+		if !strings.HasPrefix(k, srID+">") {
+			continue
+		}
+		for _, it := range items {
+			if it.kind == "rec" {
+				n++
+				last = max(last, it.at)
+			}
+		}
+	}
+	want := 0
+	for _, a := range w.assigns {
+		if a.srID == srID {
+			for sp := range a.splits {
+				var idx int
+				fmt.Sscanf(sp, "%d", &idx)
+				want += len(w.src.splits[idx])
+			}
+		}
+	}
+	return last, n >= want && want > 0
+}
